@@ -175,7 +175,7 @@ fn alphabet(d: u64) -> Op {
 }
 
 fn depth(t: Tier) -> u32 {
-    t.pick(5, 7)
+    t.pick(6, 7)
 }
 
 fn enum_decode(t: Tier, mut i: u64) -> Vec<Op> {
@@ -246,7 +246,7 @@ pub fn property() -> Property {
             Box::new(GenPart {
                 name: "random-long-histories",
                 rule: "see property rule",
-                cases: (60_000, 2_000_000),
+                cases: (600_000, 2_000_000),
                 strategy: rand_strategy,
                 check: check_rand,
                 required_classes: &["has-substitution", "run>=200-under-max>=200"],
